@@ -291,6 +291,10 @@ def s8(prog, ctx, fns, exc):
             if "strsep" in calls_in_cond or "strtok_r" in calls_in_cond:
                 ctx.ok("S8", inst, w.where, "driven by strsep(): consumes its input")
                 continue
+            if w.k == "ForStmt" and w.child("inc") is not None and any(
+                    x.k == "CallExpr" and x.j.get("callee") in ("strsep", "strtok", "strtok_r") for x in w.child("inc").walk()):
+                ctx.ok("S8", inst, w.where, "driven by a tokenizer call in the increment: consumes its input")
+                continue
             if w.k == "ForStmt":
                 sh = loops.for_shape(w)
                 if sh.ok:
